@@ -300,14 +300,18 @@ def delayElement (s : Sequence) (e : Element) : Except Err Element := do
   | some er => throw er
   | none => pure r.st
 
+/-- attach the declared filter (if filters are applied and the channel has one) to one channel -/
+def attach (s : Sequence) (apply : Bool) (x : Chan × Element.ChOut) : Except Err (Chan × ChOutF) :=
+  if apply then
+    match s.filterOf x.1 with
+    | .ok f => .ok (x.1, { out := x.2, filt := f })
+    | .error e => .error e
+  else .ok (x.1, { out := x.2, filt := none })
+
 /-- attach the declared filters to the forged channels -/
 def withFilters (s : Sequence) (apply : Bool) (d : Dict Chan Element.ChOut) :
     Except Err (Dict Chan ChOutF) :=
-  d.mapM (fun (ch, o) => do
-    if apply then
-      let f ← s.filterOf ch
-      pure (ch, { out := o, filt := f })
-    else pure (ch, { out := o, filt := none }))
+  d.mapM (s.attach apply)
 
 /-- `Sequence.forge(apply_delays, apply_filters, includetime)` -/
 def forge (s : Sequence) (applyDelays applyFilters includetime : Bool) :
